@@ -628,7 +628,79 @@ def check_instances(case):
     return n > 0 and len({tuple(x) for x in namesets}) > 1, ["instances", "calls=%d" % min(n, 5)]
 
 
+# ---- around the library's own clients, every public spelling of a command -----------------------------------------------
+
+REAL_CALLS = [
+    ("get", ("t",), {}), ("get_many", (["t", "n"],), {}), ("get_multi", (["t", "n"],), {}), ("gets", ("t",), {}), ("gets_many", (["t"],), {}),
+    ("set", ("k", b"v"), {"noreply": False}), ("set_many", ({"a": b"1", "b": b"2"},), {"noreply": False}), ("set_multi", ({"a": b"1", "b": b"2"},), {"noreply": False}),
+    ("delete", ("t",), {"noreply": False}), ("delete_many", (["t", "n"],), {"noreply": False}), ("delete_multi", (["t", "n"],), {"noreply": False}),
+    ("incr", ("n", 2), {}), ("touch", ("t", 5), {"noreply": False}), ("add", ("fresh", b"v"), {"noreply": False}), ("gat", ("t", 7), {}),
+]
+REAL_FILTERS = [({}, True), ({"retry_for": [OSError]}, True), ({"retry_for": [ConnectionError]}, True), ({"retry_for": [ValueError]}, False),
+                ({"do_not_retry_for": [OSError]}, False), ({"do_not_retry_for": [ValueError]}, True), ({"retry_for": [OSError], "do_not_retry_for": [BrokenPipeError]}, False)]
+
+
+def real_cases(tier, seed):
+    for kind in ("client", "pooled", "hash", "hash-pooled", "aws", "client:namespace", "pooled:namespace"):
+        for ci in range(len(REAL_CALLS)):
+            for fi in range(len(REAL_FILTERS)):
+                for attempts in (1, 2, 3):
+                    yield {"kind": kind, "call": ci, "filter": fi, "attempts": attempts}
+
+
+def check_real(case):
+    """RetryingClient around the library's own clients (and around stacks built on a Client subclass): the first attempt of a
+    command fails with a broken pipe before anything is sent; whether the command is attempted again - and then answers like an undisturbed
+    call - depends on attempts and the filters alone, not on which public spelling of the command was used"""
+    from vlib import faultlab, subclasses
+    from vlib.harness import Env, virtual_time
+    name, args, kw = REAL_CALLS[case["call"]]
+    fkw, retryable = REAL_FILTERS[case["filter"]]
+    kind, _, sub = case["kind"].partition(":")
+    if kind.startswith(("hash", "aws")) and name in ("gat",) and False:
+        return False, ["n/a"]
+    outcomes = []
+    for faulty in (False, True):
+        env = Env()
+        faultlab.preload(env.server, b"")
+        if sub:
+            faultlab.preload(env.server, b"ns.")
+        with virtual_time(env.clock):
+            hkw = {"retry_timeout": 1, "retry_attempts": 2} if kind.startswith(("hash", "aws")) else {}
+            c = env.client(kind, default_noreply=False, **hkw, **({"client_class": subclasses.CLIENT_CLASSES[sub]} if sub else {}))
+            # (two seconds between attempts: a hash client tries a failing server again only after its retry_timeout)
+            rc = R.RetryingClient(c, attempts=case["attempts"], retry_delay=2, **fkw)
+            if not hasattr(c, name):
+                return False, ["not-offered"]
+            env.call(rc.get, "warm-up")
+            n0 = len(env.server.log)
+            if faulty:
+                # (the command does not reach the server, so that the second attempt finds what an undisturbed call finds)
+                env.net.plan([{"call": env.ncalls, "kind": "sendall", "nth": 0, "what": "pipe", "delivered": "none"}])
+            saved = R.sleep
+            R.sleep = env.clock.advance
+            try:
+                out = env.call(getattr(rc, name), *args, **kw)
+            finally:
+                R.sleep = saved
+            outcomes.append((out, len(env.server.log) - n0))
+            c.close()
+    (clean, n_clean), (got, n_got) = outcomes
+    desc = "RetryingClient(%s, attempts=%d, %r).%s%r with a broken pipe at the first attempt's send" % (case["kind"], case["attempts"], fkw, name, args)
+    if clean[0] != "ok":
+        raise Violation(["real", "undisturbed-call-raises", name], "the undisturbed call raised %r: %s" % (clean[1], desc))
+    again = retryable and case["attempts"] >= 2
+    if again:
+        if got[0] != "ok" or repr(got[1]) != repr(clean[1]):
+            raise Violation(["real", "not-retried", name], "gave %r, an undisturbed call %r - the command was not attempted again although attempts and filters allow it: %s" % (got, clean, desc))
+    else:
+        if got[0] != "exc" or not isinstance(got[1], BrokenPipeError):
+            raise Violation(["real", "retried-or-swallowed", name], "gave %r; the error of the only permitted attempt should have reached the caller: %s" % (got, desc))
+    return True, ["real", name, "again" if again else "once"]
+
+
 PARTS = [
+    Part("around-the-library's-clients", "enum", check_real, cases=real_cases, exhaustive=True),
     Part("library-exception-classes", "enum", check_lib, cases=lib_cases, exhaustive=True, distinct_by_construction=True),
     Part("results-that-are-exceptions", "enum", check_returned_exception, cases=returned_exception_cases, exhaustive=True),
     Part("calls-from-an-except-block", "enum", check, cases=ambient_cases, exhaustive=True, distinct_by_construction=True),
